@@ -31,7 +31,8 @@ class Shape(object):
                  dpath: Optional[Dict[str, str]] = None,
                  root_path: str = "/root_out",
                  real: Optional[Dict[str, Any]] = None,
-                 tags: Optional[List[str]] = None):
+                 tags: Optional[List[str]] = None,
+                 root2: Optional[str] = None):
         self.name = name
         self.root = root
         self.funs = list(stmts.keys())
@@ -58,6 +59,11 @@ class Shape(object):
         # is called with "default"
         # entry styles, primary first
         self.styles = ["direct", "eval"] if self.dpath[root] else ["keep", "eval"]
+        self.root2 = root2
+        self.roots = [{"f": root, "path": root_path, "styles": self.styles}]
+        if root2:
+            self.roots.append({"f": root2, "path": root_path + "_b",
+                               "styles": ["direct", "eval"] if self.dpath[root2] else ["keep", "eval"]})
         self.check()
 
     def check(self) -> None:
@@ -81,15 +87,12 @@ class Shape(object):
         r = Rec(
             name=self.name,
             funs=list(self.funs),
-            root=self.root,
-            rootPath=self.root_path,
+            roots=[Rec(f=r["f"], path=r["path"], styles=list(r["styles"])) for r in self.roots],
             dpath=dict(self.dpath),
             stmts={f: [Rec(s) for s in self.stmts[f]] for f in self.funs},
             reads=dict(self.reads),
             vars=list(self.vars),
             vmax={v: VMAX.get(self.vtype[v], 9) for v in self.vars},
-            styles=set(self.styles),
-            styleSeq=list(self.styles),
         )
         return tlax(r)
 
@@ -97,12 +100,12 @@ class Shape(object):
         return {"name": self.name, "root": self.root, "funs": self.funs, "stmts": self.stmts,
                 "reads": self.reads, "vtype": self.vtype, "dpath": self.dpath,
                 "root_path": self.root_path, "param": self.param, "real": self.real,
-                "tags": self.tags, "styles": self.styles}
+                "tags": self.tags, "styles": self.styles, "root2": self.root2}
 
     @staticmethod
     def from_json(d: Dict[str, Any]) -> "Shape":
         return Shape(d["name"], d["root"], d["stmts"], d["reads"], d["vtype"], d["dpath"],
-                     d["root_path"], d.get("real"), d.get("tags"))
+                     d["root_path"], d.get("real"), d.get("tags"), d.get("root2"))
 
 
 def shape_data_module(shapes: List[Shape]) -> str:
@@ -160,13 +163,6 @@ def core_shapes() -> List[Shape]:
         reads={"f2": ["v1"], "f3": ["v2"], "f4": ["v3"]},
         vtype={"v1": "int", "v2": "int", "v3": "int"}, tags=["kept-inner", "kept-leaf"]))
 
-    # s_load: producer data function, then a kept reader loading its path (test_load_basic)
-    S.append(Shape(
-        "load", "f1",
-        {"f1": [call("f2"), call("f3"), load("/l/p3")], "f2": [], "f3": [load("/l/p2")]},
-        reads={"f2": ["v1"], "f3": ["v2"]},
-        vtype={"v1": "int", "v2": "int"},
-        dpath={"f2": "/l/p2", "f3": "/l/p3"}, tags=["load-toplevel", "load-in-kept"]))
     return S
 
 
@@ -184,10 +180,55 @@ def vtype_shapes(types: Optional[List[str]] = None) -> List[Shape]:
     return res
 
 
+def load_shapes() -> List[Shape]:
+    """C09: placements of a load x kinds of producer x when the producer ran."""
+    S: List[Shape] = []
+    # producers are data functions; reader is a kept function; load at the root's top level too
+    S.append(Shape(
+        "ld_df", "f1",
+        {"f1": [call("f2"), call("f3"), load("/l/p3")], "f2": [], "f3": [load("/l/p2")]},
+        reads={"f2": ["v1"], "f3": ["v2"]}, vtype={"v1": "int", "v2": "int"},
+        dpath={"f2": "/l/p2", "f3": "/l/p3"}, tags=["load-toplevel", "load-in-kept", "producer-datafun"]))
+    # producers are keep calls
+    S.append(Shape(
+        "ld_keep", "f1",
+        {"f1": [keep("/k/p2", "f2"), keep("/k/p3", "f3"), load("/k/p3")], "f2": [], "f3": [load("/k/p2")]},
+        reads={"f2": ["v1"], "f3": ["v2"]}, vtype={"v1": "int", "v2": "int"},
+        tags=["load-toplevel", "load-in-kept", "producer-keepcall"]))
+    # load inside a nested plain helper, below a kept node
+    S.append(Shape(
+        "ld_nested", "f1",
+        {"f1": [call("f2"), keep("/n/p3", "f3")], "f2": [], "f3": [call("f4")], "f4": [load("/n/p2")]},
+        reads={"f2": ["v1"], "f4": ["v2"]}, vtype={"v1": "int", "v2": "int"},
+        dpath={"f2": "/n/p2"}, tags=["load-nested-helper", "producer-datafun"]))
+    # read before produce in the same evaluation: must be rejected
+    S.append(Shape(
+        "ld_before", "f1",
+        {"f1": [load("/b/p2"), call("f2")], "f2": []},
+        reads={"f2": ["v1"]}, vtype={"v1": "int"},
+        dpath={"f2": "/b/p2"}, tags=["load-before-producer"]))
+    S.append(Shape(
+        "ld_before_nested", "f1",
+        {"f1": [call("f3"), keep("/c/p2", "f2")], "f2": [], "f3": [load("/c/p2")]},
+        reads={"f2": ["v1"]}, vtype={"v1": "int"}, tags=["load-before-producer", "load-nested-helper"]))
+    # producer and reader are separate evaluations (two roots)
+    S.append(Shape(
+        "ld_earlier", "f1",
+        {"f1": [], "f2": [load("/e/p1")]},
+        reads={"f1": ["v1"], "f2": ["v2"]}, vtype={"v1": "int", "v2": "int"},
+        dpath={"f1": "/e/p1", "f2": "/e/p2"}, root2="f2", tags=["producer-earlier-evaluation", "producer-never"]))
+    S.append(Shape(
+        "ld_earlier_nested", "f1",
+        {"f1": [], "f3": [keep("/g/p5", "f5")], "f5": [call("f4")], "f4": [load("/g/p1")]},
+        reads={"f1": ["v1"], "f4": ["v2"]}, vtype={"v1": "int", "v2": "int"},
+        dpath={"f1": "/g/p1"}, root2="f3", tags=["producer-earlier-evaluation", "load-nested-helper"]))
+    return S
+
+
 def quick_shapes() -> List[Shape]:
-    return core_shapes() + vtype_shapes()
+    return core_shapes() + vtype_shapes() + load_shapes()[:3]
 
 
 def by_name(names: List[str]) -> List[Shape]:
-    allS = {s.name: s for s in quick_shapes()}
+    allS = {s.name: s for s in quick_shapes() + load_shapes()}
     return [allS[n] for n in names]
